@@ -253,4 +253,7 @@ MUTANTS = [
  dict(id="C19", name="char_parameter_driven_with_int", edits=[(AU, "        rtosc_message(msg, 256, path, type == 'i' ? \"i\" : \"c\", (int)round(v));", "        rtosc_message(msg, 256, path, \"i\", (int)round(v));")]),
  dict(id="C19", name="int_log_parameter_not_exponentiated", edits=[(AU, "        if(au.map.control_scale == 1)\n            v = exp(v);\n", "")]),
  dict(id="C19", name="int_clamp_in_single_precision", edits=[(AU, "        double v = value*(b-a) + a;\n        if(v > au.param_max)\n            v = au.param_max;", "        double v = value*(b-a) + a;\n        if(v > mx)\n            v = mx;")]),
+ dict(id="C12", name="value_query_dispatched_from_reply_buffer", edits=[("src/cpp/ports-runtime.cpp", "    ports.dispatch(msg.data(), d, false);", "    ports.dispatch(buffer_with_port, d, false);")]),
+ dict(id="C12", name="option_array_mapped_element_by_element", edits=[(PC, "            if(av[i].type == 'i' && !printable_symbol(av[i].val.i, meta))\n                return;", "            if(false)\n                return;")]),
+ dict(id="C12", name="format_keywords_saved_as_bare_symbols", edits=[(PC, "        if(!strcmp(val, reserved[r]))\n            val = NULL;", "        if(false)\n            val = NULL;")]),
 ]
